@@ -69,7 +69,7 @@ PROPS = {
                 "operations follows, all compared step by step; non-trivial there = >=1024 messages and no cut",
         "assumptions": [POSTGRES, SAMPLED, "memory-only admission guards (memory pressure, delivered-retention depth guard) are excluded by configuration as documented"],
         "parts": [{"engine": "qmodel", "test": "TestProp_C13_LockStep", "quick": 2000, "thorough": 240000},
-                  {"engine": "qmodel", "test": "TestProp_C13_LongLockStep", "quick": 48, "thorough": 1600, "shards": {"quick": 8}}],
+                  {"engine": "qmodel", "test": "TestProp_C13_LongLockStep", "quick": 48, "thorough": 1600, "shards": {"quick": 8}, "shrinktime": "8s"}],
     },
     "C14": {
         "rule": "store tier: populations over routes x targets x all five states with tie timestamps, then id-list and by-filter mutations "
